@@ -25,7 +25,7 @@ from mc.refs import prebuildhost as H
 
 NEEDS_BRIDGEPOINT = True
 PROP = 'c06'
-BUDGET_S = {'quick': 300, 'thorough': 1500}
+BUDGET_S = {'quick': 3600, 'thorough': 14400}
 KWCASE_BOTH = ('statements', 'expressions', 'names')      # families rendered in UPPER and in Capitalised keywords (quick)
 REMARK_FAMILIES = ('statements', 'nesting')            # families laid out with comments holding odd characters (quick)
 
